@@ -15,6 +15,12 @@ impl Task<'_> {
             return;
         };
 
+        // Skip if the task has already completed. (If the future is currently
+        // borrowed, the task is being polled and hence not yet complete.)
+        if self.future.try_borrow().is_ok_and(|future| future.is_none()) {
+            return;
+        }
+
         let wake_queue = &mut executor.borrow_mut().wake_queue;
 
         // Skip if the task is already enqueued
@@ -54,6 +60,13 @@ impl Task<'_> {
         let is_ready = poll.is_ready();
         if is_ready {
             *future_or_none = None;
+
+            // The task may have been woken during the final poll. Remove it
+            // from the queue so that it is not run (and counted) again.
+            if let Some(executor) = self.executor.upgrade() {
+                let wake_queue = &mut executor.borrow_mut().wake_queue;
+                wake_queue.retain(|task| !Rc::ptr_eq(task, self));
+            }
         }
         is_ready
     }
